@@ -65,7 +65,7 @@ func evmWeights() map[string]int {
 // ---- C01 -------------------------------------------------------------------------
 
 func checkC01(c *Ctx) {
-	c.rule = "each generated history (all eight transaction types incl. contracts, valid and invalid, absentee/evidence patterns) is executed on a primary replica and replayed on twin replicas that differ in process, data directory, start time (>2s later), TZ, GOMAXPROCS, GOGC and build flavour (-race); per-call comparison of DeliverTx code/data/gas, validator updates, app hash, Info; distinct = distinct final app hash"
+	c.rule = "each generated history (all eight transaction types incl. contracts, valid and invalid, absentee/evidence patterns) is executed on a primary replica and replayed on twin replicas that differ in process, data directory, start time (>2s later), TZ, GOMAXPROCS, GOGC, build flavour (-race) and calling convention (one twin is driven through DeliverTxAsync/CheckTxAsync and the response callback, as the consensus engine does); per-call comparison of DeliverTx code/data/gas, validator updates, app hash, Info; distinct = distinct final app hash"
 	n := c.N(24, 400)
 	type prim struct {
 		hr *HistRun
@@ -101,7 +101,7 @@ func checkC01(c *Ctx) {
 			sub     string
 			restart int // per-mille probability of a process restart after a commit ("independently started" replicas)
 		}{
-			{"tz-gomaxprocs1-gogc5", SpawnOpt{Env: []string{"TZ=Asia/Seoul", "GOMAXPROCS=1", "GOGC=5"}}, "twin-a/" + strings.Repeat("deep/", 8), 0},
+			{"tz-gomaxprocs1-gogc5", SpawnOpt{Env: []string{"TZ=Asia/Seoul", "GOMAXPROCS=1", "GOGC=5", "RV_DELIVER=async"}}, "twin-a/" + strings.Repeat("deep/", 8), 0},
 			{"race-gogcoff", SpawnOpt{Race: true, Env: []string{"TZ=America/Anchorage", "GOGC=off", "GOMAXPROCS=16"}}, "b", 0},
 			{"restarting", SpawnOpt{Env: []string{"TZ=UTC", "GOMAXPROCS=3"}}, "c", 250},
 		}
